@@ -42,7 +42,7 @@ BUDGET = {"quick": 85, "thorough": 900}
 ROUNDS = {"thorough": 3}
 FLOORS = {"transitions": {"quick": 4000, "thorough": 40000}, "accepted": {"quick": 800, "thorough": 8000}, "rejected": {"quick": 800, "thorough": 8000},
           "hastings_checked": {"quick": 3000, "thorough": 30000}, "logger_rows": {"quick": 2000, "thorough": 20000}, "tune_calls": {"quick": 1500, "thorough": 15000},
-          "operator_types": 5, "hook_records": {"quick": 4000, "thorough": 40000},
+          "operator_types": 5, "nonfinite_proposals": {"quick": 40, "thorough": 400}, "tune_calls_adaptive_step_size": {"quick": 150, "thorough": 1500}, "adaptive_step_size_modes": 2, "hook_records": {"quick": 4000, "thorough": 40000},
           "accepted:ScalerOperator": 30, "rejected:ScalerOperator": 30, "accepted:SlidingWindowOperator": 30, "rejected:SlidingWindowOperator": 30,
           "accepted:DirichletOperator": 30, "rejected:DirichletOperator": 30, "accepted:HMCOperator": 30, "rejected:HMCOperator": 30,
           "accepted:GMRFPiecewiseCoalescentBlockUpdatingOperator": 30, "rejected:GMRFPiecewiseCoalescentBlockUpdatingOperator": 30}
@@ -58,11 +58,17 @@ def cases(tier, seed):
     rng = np.random.default_rng([seed, 15])
     n = {"quick": 48, "thorough": 480}[tier]
     out = []
-    targets = ["toy", "toy", "tree", "skygrid"]
+    targets = ["toy", "toy", "tree", "skygrid", "toy", "nanregion"]
     for i in range(n):
         t = targets[i % len(targets)]
         out.append({"target": t, "seed": int(rng.integers(2**31)), "iterations": int(rng.integers(150, 401)) if t != "tree" else int(rng.integers(60, 140)),
                     "adapt": bool(rng.random() < 0.6), "single": bool(rng.random() < 0.3)})
+        if t == "toy":
+            ad = [None, "adaptive-prob", "adaptive-rate", "dual", "adaptive-rate", None, "dual+mass", "adaptive-prob"][(i // 2) % 8]
+            if ad:
+                out[-1]["adaptor"] = ad
+                out[-1]["adapt"] = True
+                out[-1]["single"] = False
     return out
 
 
@@ -95,8 +101,30 @@ def target_toy(case, rng):
            op("op.dirichlet", "DirichletOperator", ["s"], rng, case["adapt"], scaler=float(gm.loguniform(rng, 5, 200))),
            hmc_op("op.hmc", "joint", ["z"], 2, rng, case["adapt"], dense=bool(rng.random() < 0.5), eps=float(gm.loguniform(rng, 0.3, 1.8)), steps=int(rng.integers(1, 8))),
            op("op.slide2", "SlidingWindowOperator", ["x", "z"], rng, case["adapt"], width=float(gm.loguniform(rng, 0.2, 3)))]
+    if case["adapt"] and case.get("adaptor"):
+        kind = case["adaptor"]
+        integ = "op.hmc.integrator"
+        ops[3]["adaptors"] = {"adaptive-prob": [{"id": "ad.step", "type": "AdaptiveStepSize", "integrator": integ, "target_acceptance_probability": 0.7, "use_acceptance_rate": False}],
+                              "adaptive-rate": [{"id": "ad.step", "type": "AdaptiveStepSize", "integrator": integ, "target_acceptance_probability": 0.7, "use_acceptance_rate": True}],
+                              "dual": [{"id": "ad.dual", "type": "DualAveragingStepSize", "integrator": integ, "target_acceptance_probability": 0.7}],
+                              "dual+mass": [{"id": "ad.dual", "type": "DualAveragingStepSize", "integrator": integ, "target_acceptance_probability": 0.7},
+                                            {"id": "ad.mass", "type": "MassMatrixAdaptor", "parameters": ["z"], "mass_matrix": "op.hmc.mass", "update_frequency": 5}]}[kind]
+        ops[3]["weight"] = 6.0
     logged = ["x", "y", "s", "z"]
     return spec, ops, logged
+
+
+def target_nanregion(case, rng):
+    """a target with a region where the density is NaN (GMRF precision below zero) that a wide sliding window reaches:
+    such proposals have to be rejected, and the density carried on must stay that of the current state"""
+    G = int(rng.integers(3, 7))
+    spec = [{"id": "gmrf", "type": "GMRF", "x": P("field", rng.normal(0.5, 2.0, G).tolist()), "precision": P("precision", [float(gm.loguniform(rng, 0.2, 1.0))])},
+            {"id": "prior.field", "type": "Distribution", "distribution": "torch.distributions.Normal", "x": "field", "parameters": {"loc": 0.0, "scale": 3.0}},
+            {"id": "joint", "type": "JointDistributionModel", "distributions": ["gmrf", "prior.field"]}]
+    ops = [op("op.slide.precision", "SlidingWindowOperator", ["precision"], rng, False, width=float(rng.uniform(2.0, 5.0))),
+           op("op.slide.field", "SlidingWindowOperator", ["field"], rng, case["adapt"], width=float(gm.loguniform(rng, 0.2, 2))),
+           op("op.slide.both", "SlidingWindowOperator", ["precision", "field"], rng, False, width=float(rng.uniform(1.0, 3.0)))]
+    return spec, ops, ["field", "precision"]
 
 
 def target_tree(case, rng):
@@ -138,7 +166,9 @@ def target_skygrid(case, rng):
 def leaf_snapshot(dic):
     from torchtree import Parameter
 
-    return {i: o.tensor.detach().clone() for i, o in dic.items() if type(o) is Parameter}
+    # the state of the chain: parameters of the target; parameters owned by operators (HMC mass matrices, which a mass-matrix adaptor
+    # rewrites between iterations) are tuning state, not chain state
+    return {i: o.tensor.detach().clone() for i, o in dic.items() if type(o) is Parameter and not str(i).startswith("op.")}
 
 
 def set_leaves(dic, snap):
@@ -256,6 +286,8 @@ def run_case(case):
         spec, ops, logged = target_toy(case, rng)
     elif t == "tree":
         spec, ops, logged = target_tree(case, rng)
+    elif t == "nanregion":
+        spec, ops, logged = target_nanregion(case, rng)
     else:
         spec, ops, logged, meta = target_skygrid(case, rng)
     if case["single"]:
@@ -352,11 +384,16 @@ def install(o, dic, cur, torch):
         cur["rec"]["after"] = leaf_snapshot(dic)
         cur["rec"]["decision_call"] = "reject"
 
+    running = {"calls": 0, "accepted": 0}
+
     def tune(acceptance_prob, sample, accepted):
         b0 = boldness(o)
+        running["calls"] += 1
+        running["accepted"] += bool(accepted)
         orig_tune(acceptance_prob, sample=sample, accepted=accepted)
+        ads = [(type(a).__name__, bool(getattr(a, "_acceptance_rate", False)), getattr(a, "target_acceptance_probability", None)) for a in getattr(o, "_adaptors", [])]
         cur["rec"]["tune"] = {"before": b0, "after": boldness(o), "acceptance_prob": float(acceptance_prob), "target": o.target_acceptance_probability,
-                              "disabled": o._disable_adaptation}
+                              "disabled": o._disable_adaptation, "adaptors": ads, "calls": running["calls"], "running_rate": running["accepted"] / running["calls"]}
 
     o.step, o.accept, o.reject, o.tune = step, accept, reject, tune
     if tname == "HMCOperator":
@@ -450,6 +487,8 @@ def check_records(case, dic, shadow, spec, records, meta, V, C, torch):
                 return
         # (4) the decision
         if inf_hr or prop_val is None or not math.isfinite(prop_val):
+            if not inf_hr:
+                C["nonfinite_proposals"] = C.get("nonfinite_proposals", 0) + 1
             if h["accepted"]:
                 V.append(tt.viol("C15:accepted-impossible-move:" + tname, where + ": a move with infinite Hastings ratio / non-finite density was accepted", **detail))
                 return
@@ -475,6 +514,20 @@ def check_records(case, dic, shadow, spec, records, meta, V, C, torch):
             return
         ref_state = r["proposed"] if h["accepted"] else r["before"]
         bad = [i for i in ref_state if not torch.equal(ref_state[i], after[i])]
+        if bad and not h["accepted"]:
+            # mechanism: reject() restores `parameter.tensor = saved`; on a TransformedParameter that assignment goes through the inverse
+            # transform, so the underlying parameter comes back as inv(forward(x)), which can differ from x in the last bits
+            try:
+                transformed = any(type(q).__name__ == "TransformedParameter" for q in dic[h["operator"]].parameters)
+            except Exception:
+                transformed = False
+            rel = max(float(((ref_state[i] - after[i]).abs() / ref_state[i].abs().clamp_min(1e-300)).max()) for i in bad)
+            if transformed and rel <= 1e-15:
+                V.append(tt.viol("C15:reject-not-bit-identical:operator-on-a-transformed-parameter:restored-through-the-inverse-transform",
+                                 "%s: after reject parameter %s is %s, it was %s before the proposal (relative difference %.2g)" % (where, bad[0], after[bad[0]].tolist(), ref_state[bad[0]].tolist(), rel), **detail))
+                bad = []
+                prev_after = after
+                continue
         if bad:
             V.append(tt.viol("C15:%s:%s" % ("accept-changes-state" if h["accepted"] else "reject-not-bit-identical", tname),
                              "%s: after %s parameter %s is %s, expected %s" % (where, "accept" if h["accepted"] else "reject", bad[0], after[bad[0]].tolist(), ref_state[bad[0]].tolist()), **detail))
@@ -495,7 +548,24 @@ def check_records(case, dic, shadow, spec, records, meta, V, C, torch):
                 if tn["after"] != tn["before"]:
                     V.append(tt.viol("C15:tuning-while-disabled:" + tname, "%s: adaptation is disabled but the proposal scale changed from %r to %r" % (where, tn["before"], tn["after"]), **detail))
                     return
-            elif tn["before"] is not None and not r.get("has_adaptors"):
+            elif tn["before"] is not None and tn.get("adaptors"):
+                # HMC with adaptors: judged for the plain Robbins-Monro step-size adaptor, on the statistic it is configured with
+                # (this iteration's acceptance probability, or the running acceptance rate of the operator from the 10th call on);
+                # dual averaging and mass-matrix adaptation are not monotone per iteration and are not judged
+                ads = tn["adaptors"]
+                if len(ads) == 1 and ads[0][0] == "AdaptiveStepSize":
+                    use_rate, target = ads[0][1], ads[0][2]
+                    stat = tn["running_rate"] if use_rate else tn["acceptance_prob"]
+                    if not use_rate or tn["calls"] >= 10:
+                        C["tune_calls_adaptive_step_size"] = C.get("tune_calls_adaptive_step_size", 0) + 1
+                        C["adaptive_step_size_modes"] = sorted(set(C.get("adaptive_step_size_modes", [])) | {"rate" if use_rate else "probability"})
+                        if stat > target + 1e-12 and tn["after"] < tn["before"] * (1 - 1e-12):
+                            V.append(tt.viol("C15:tuning-direction:AdaptiveStepSize:%s" % ("acceptance-rate" if use_rate else "acceptance-probability"),
+                                             "%s: %s %.3f is above the target %.3f but the step size shrank (%.6g -> %.6g)" % (where, "running acceptance rate" if use_rate else "acceptance probability", stat, target, tn["before"], tn["after"]), **detail))
+                            return
+                else:
+                    C["tune_calls_not_judged_other_adaptors"] = C.get("tune_calls_not_judged_other_adaptors", 0) + 1
+            elif tn["before"] is not None:
                 if tn["acceptance_prob"] > tn["target"] + 1e-12 and tn["after"] < tn["before"] * (1 - 1e-12):
                     V.append(tt.viol("C15:tuning-direction:" + tname, "%s: acceptance %.3f is above the target %.3f but the proposal became more timid (boldness %.6g -> %.6g)" % (where, tn["acceptance_prob"], tn["target"], tn["before"], tn["after"]), **detail))
                     return
